@@ -886,7 +886,10 @@ func genC03(r *simrt.Rand, tier string) any {
 		nf := 1 + r.Int(2)
 		for i := 0; i < nf; i++ {
 			f := simfs.Fault{Nth: 1 + r.Int(14), Kind: "eio"}
-			f.Op = []string{"Lstat", "Lstat", "Lstat", "Stat", "Create", "OpenFile", "Truncate", "Chmod", "Chown", "File.Close"}[r.Int(10)]
+			f.Op = []string{"Lstat", "Lstat", "Lstat", "Stat", "Create", "OpenFile", "Truncate", "Chmod", "Chown", "File.Close", "Remove", "Remove"}[r.Int(12)]
+			if f.Op == "Remove" {
+				f.Nth = 1 + r.Int(3)
+			}
 			if r.Pct(20) {
 				f.Kind = []string{"enospc", "eacces"}[r.Int(2)]
 			}
@@ -899,7 +902,7 @@ func genC03(r *simrt.Rand, tier string) any {
 func init() {
 	Register(&Prop{
 		ID: "C03", Level: "exploration",
-		Rule:    "one case = a history of 4-18 CREATE calls (every mode UNCHECKED/GUARDED/EXCLUSIVE, sattr3 subsets incl. size/mode/uid/times, verifiers equal to or different from the creating call's) against names occupied by nothing, a regular file with unique data, a directory, a symlink (dangling or not), interleaved with READ/REMOVE/clock advances; oracle: GUARDED on existing => NFS3ERR_EXIST, EXCLUSIVE on existing => OK only for the creating verifier, existing file bytes identical afterwards unless size was set, backend tree == model; 30% of the cases inject 1-2 backend errors (lstat/stat at the existence check, create, open, truncate, chmod, chown, close) inside some CREATE: a faulted CREATE may fail with any status but must still not succeed where the mode forbids it nor change the data of an existing file; non-trivial = at least one CREATE; distinct by event digest",
+		Rule:    "one case = a history of 4-18 CREATE calls (every mode UNCHECKED/GUARDED/EXCLUSIVE, sattr3 subsets incl. size/mode/uid/times, verifiers equal to or different from the creating call's) against names occupied by nothing, a regular file with unique data, a directory, a symlink (dangling or not), interleaved with READ/REMOVE/clock advances; oracle: GUARDED on existing => NFS3ERR_EXIST, EXCLUSIVE on existing => OK only for the creating verifier, existing file bytes identical afterwards unless size was set, backend tree == model; 30% of the cases inject 1-2 backend errors (lstat/stat at the existence check, create, open, truncate, chmod, chown, close; or the remove of a REMOVE between two CREATEs) inside some request: a faulted CREATE may fail with any status but must still not succeed where the mode forbids it nor change the data of an existing file; non-trivial = at least one CREATE; distinct by event digest",
 		Gen:     genC03,
 		New:     func() any { return &SeqScn{} },
 		Run:     runSeq("C03."),
@@ -1077,6 +1080,14 @@ func genC05(kind string) func(r *simrt.Rand, tier string) any {
 					sh.kind[joinPath(dp, name)] = mLink
 					sh.hpath = append(sh.hpath, joinPath(dp, name))
 				}
+			}
+		}
+		if r.Pct(20) {
+			// fault-injecting class: the backend's lstat fails now and then (while handles are being issued by
+			// LOOKUP and READDIRPLUS): whatever handle is issued must still be the one handle of its path
+			sc.Cfg.MaxHandles = []int{16, 32, 0}[r.Int(3)] // no eviction pressure here: a second value for a path has no excuse
+			for i, n := 0, 1+r.Int(3); i < n; i++ {
+				sc.Faults = append(sc.Faults, simfs.Fault{Op: "Lstat", Nth: 3 + r.Int(60), Kind: "eio", Repeat: r.Pct(15)})
 			}
 		}
 		return sc
